@@ -14,7 +14,7 @@ THE PROPERTY (JSON record; `anchors` name the files and mechanisms it lives in):
 
 What to deliver:
 1. A change to files under {wt}/core/src (keep it small: ideally 1-15 changed lines) that breaks the property. Prefer a change that needs something SPECIFIC to manifest: a particular size or boundary value, a particular order of events, a particular configuration/option, a rarely taken branch, a second peer, a reconnect, an error path. A change that breaks every use of the feature is not useful.
-2. A demonstration: a new integration test file `{wt}/core/tests/seeded_demo.rs` (tokio tests using only rzmq's public API, raw TcpStream peers are fine) - or, if the property concerns crate-internal code that has no public surface, a `#[cfg(test)]` unit test added to the touched module - that PASSES on the unmodified code and FAILS with your change. Run it both ways (use `git stash` / `git stash pop` on your src change) and report both results.
+2. A demonstration: a new integration test file `{wt}/core/tests/seeded_demo.rs` (tokio tests using only rzmq's public API, raw TcpStream peers are fine) - or, if the property concerns crate-internal code that has no public surface, a `#[cfg(test)]` unit test added to the touched module - that PASSES on the unmodified code and FAILS with your change. Run it both ways and report both results. IMPORTANT: do NOT use `git stash` (the stash is shared between all worktrees of this repository and other people are working in sibling worktrees); to test without your change do `git diff -- core/src > /tmp/seed/{pid}.mychange.patch && git checkout -- core/src`, run the demo, then `git apply /tmp/seed/{pid}.mychange.patch`.
 3. Evidence that it compiles and that the relevant existing tests still pass with your change: run `cd {wt} && CARGO_NET_OFFLINE=true cargo build -p rzmq --offline` and the existing tests that touch the code you changed, e.g. `CARGO_NET_OFFLINE=true cargo test -p rzmq --offline --test <name>` and `CARGO_NET_OFFLINE=true cargo test -p rzmq --offline --lib <module>` (the full suite takes several minutes and is timing sensitive; run at least every test file that exercises the changed code path. The interop tests `rzmq_interop` need pyzmq and fail in this sandbox regardless - ignore them. `stress ... connection_churn` also fails regardless.) If an existing test fails because of your change, pick a different change.
 4. When done, leave the worktree with BOTH your src change and the demo test file in place (uncommitted), and reply with a short report:
    - FILES: changed source files
